@@ -80,7 +80,7 @@ def load_packets_module_with_threshold(new_threshold: int):
     stays 'space_packet_parser.packets' so that frame inspection recognises its frames.
     """
     path = os.path.join(REPO_ROOT, "space_packet_parser", "packets.py")
-    with open(path) as f:
+    with open(path, encoding="utf-8") as f:
         src = f.read()
     tree = ast.parse(src, filename=path)
     count = 0
